@@ -33,6 +33,12 @@ READERS = [("iteritems", "MIterItems", "gen_iteritems"), ("iterkeys", "MIterKeys
 ENABLE_READERS = True
 if ENABLE_READERS:
     METHODS = METHODS + READERS
+BUILDERS = [("__getstate__", "MGetState", "gen_getstate"), ("__setstate__", "MSetState", "gen_setstate"),
+            ("copy", "MCopy", "gen_copy"), ("inverted", "MInverted", "gen_inverted"), ("counts", "MCounts", "gen_counts"),
+            ("sorted", "MSorted", "gen_sorted"), ("todict", "MToDict", "gen_todict")]
+ENABLE_BUILDERS = True
+if ENABLE_BUILDERS:
+    METHODS = METHODS + BUILDERS
 ACC_TOKS, ACC_PAIRS = 998, 999          # environment slots that collect what a generator yields
 KWARGS_OK = {"update", "update_extend"}      # methods whose **F is translated (second argument of the call)
 CTOR = {py: c for py, c, _ in METHODS}
@@ -64,6 +70,7 @@ class Method:
         self.dict_sd_alias = {}   # local name -> dict variable (x = lengths.setdefault)
         self.store_getitem_alias = set()   # local names bound to super().__getitem__
         self.yield_kinds = set()
+        self.cls_alias = set()    # local names bound to self.__class__
         self.meth_alias = {}      # local name -> python method name (x = self._insert)
         self.super_alias = set()  # local names bound to super()
         self.map_alias = set()    # local names bound to self._map (only in _clear_ll)
@@ -153,7 +160,13 @@ class Method:
         if isinstance(e, ast.GeneratorExp):
             if ast.unparse(e) == "((k, E[k]) for k in E.keys())":
                 return "(EGenKV %s)" % self.expr(ast.Name(id="E"))
+            if isinstance(e.elt, ast.Tuple) and len(e.elt.elts) == 2:
+                return self.comprehension(e, e.elt.elts[0], e.elt.elts[1], False)
             self.bad("generator expression", e)
+        if isinstance(e, ast.DictComp):
+            multi = isinstance(e.value, ast.Call) and isinstance(e.value.func, ast.Attribute) \
+                and _is_self(e.value.func.value) and e.value.func.attr == "getlist"
+            return self.comprehension(e, e.key, e.value, multi)
         if isinstance(e, ast.Constant) and e.value is None:
             return "ENone"
         if isinstance(e, ast.Constant) and e.value is True:
@@ -209,6 +222,35 @@ class Method:
             return self.call(e)
         self.bad("expression", e)
 
+    def iter_source(self, it):
+        if _is_self(it):                                   # for k in self  ->  self.__iter__()
+            return self.call_method("__iter__", [], [], it)
+        return self.expr(it)
+
+    def comprehension(self, e, a, b, multi):
+        if len(e.generators) != 1 or e.generators[0].ifs or e.generators[0].is_async:
+            self.bad("comprehension", e)
+        g = e.generators[0]
+        saved = dict(self.vars)
+        try:
+            if isinstance(g.target, ast.Name):
+                src = self.iter_source(g.iter)
+                x = self.var(g.target.id, define=True)
+                return "(EComp1 %s %d %s %s %s)" % ("true" if multi else "false", x, src, self.expr(a), self.expr(b))
+            if isinstance(g.target, ast.Tuple) and len(g.target.elts) == 2 \
+                    and all(isinstance(t, ast.Name) for t in g.target.elts) and not multi:
+                src = self.iter_source(g.iter)
+                x = self.var(g.target.elts[0].id, define=True)
+                y = self.var(g.target.elts[1].id, define=True)
+                return "(EComp2 %d %d %s %s %s)" % (x, y, src, self.expr(a), self.expr(b))
+            self.bad("comprehension target", e)
+        finally:
+            # comprehension variables are local to it, but keep their numbers reserved
+            for k in list(self.vars):
+                if k not in saved:
+                    idx = self.vars.pop(k)
+                    self.vars["_comp_%s_%d" % (k, idx)] = idx
+
     def empty_list(self, n):
         return isinstance(n, ast.List) and not n.elts
 
@@ -227,6 +269,15 @@ class Method:
             return "(EArgItems %s)" % self.expr(ast.Name(id="E"))
         if src == "set()":
             return "ESetNew"
+        if (ast.unparse(f) == "self.__class__" or (isinstance(f, ast.Name) and f.id in self.cls_alias)) \
+                and len(e.args) == 1 and not e.keywords:
+            return "(ENewFrom %s)" % self.expr(e.args[0])
+        if isinstance(f, ast.Name) and f.id == "sorted" and len(e.args) == 1 \
+                and [k.arg for k in e.keywords] == ["key", "reverse"]:
+            return "(ESorted %s %s %s)" % (self.expr(e.args[0]), self.expr(e.keywords[0].value),
+                                           self.expr(e.keywords[1].value))
+        if isinstance(f, ast.Name) and f.id == "len" and len(e.args) == 1 and not e.keywords:
+            return "(ELen %s)" % self.expr(e.args[0])
         if isinstance(f, ast.Name) and f.id in self.store_getitem_alias and len(e.args) == 1 and not e.keywords:
             return "(EStoreGetitem %s)" % self.expr(e.args[0])
         if isinstance(f, ast.Name):
@@ -298,6 +349,9 @@ class Method:
                         return None
                     if isinstance(v, ast.Attribute) and v.attr == "__getitem__" and self.is_super(v.value):
                         self.store_getitem_alias.add(t.id)           # x = super().__getitem__
+                        return None
+                    if ast.unparse(v) == "self.__class__":         # cls = self.__class__
+                        self.cls_alias.add(t.id)
                         return None
                     if _self_attr(v) and v.attr in CTOR:         # x = self._insert
                         if t.id in self.vars:
@@ -453,6 +507,13 @@ def generate(repo):
         out.append("(* %s(%s) *)" % (py, ", ".join(["self"] + sigs[py][0])))
         out.append("Definition %s : stmt :=\n  %s." % (name, body))
         out.append("")
+    # the default values of the parameters (used by callers that omit arguments; part of the behaviour)
+    dm = Method(fns[METHODS[0][0]], sigs)
+    rows = []
+    for py, ctor, _ in METHODS:
+        rows.append("(%s, [%s])" % (ctor, "; ".join(dm.const_default(d) for d in sigs[py][1])))
+    out.append("Definition gen_defaults : list (meth * list ex) :=\n  [%s]." % ";\n   ".join(rows))
+    out.append("")
     out.append("Definition gen_prog (m : meth) : stmt :=\n  match m with\n%s\n  end." % "\n".join(
         "  | %s => %s" % (c, n) for _, c, n in METHODS))
     return "\n".join(out) + "\n"
